@@ -17,9 +17,15 @@ stage = []
 for i, cls in enumerate(('vqp', 'lazy', 'bounded')):
     stage.append(frag(cls + '_allocate', r'value_type \* allocate\( size_t \w+ \)', i))
     stage.append(frag(cls + '_deallocate', r'void deallocate\( value_type \* \w+, size_t \w+ \)', i))
-stage.append(frag('vqp_preallocate_pool', r'void preallocate_pool\(\)', 0))
+stage.append(frag('vqp_preallocate_pool', r'void preallocate_pool\([^)]*\)', 0))
 stage.append(frag('vqp_from_pool', r'bool from_pool\( value_type \* \w+ \) const', 0))
-stage.append(frag('bounded_preallocate_pool', r'void preallocate_pool\(\)', 1))
+stage.append(frag('bounded_preallocate_pool', r'void preallocate_pool\([^)]*\)', 1))
+# the constructors are the entry points of the preallocation groups (whatever passes between them and preallocate_pool is inside the check)
+CTOR_WHY = 'constructor of the class template -> member function vx_ctor of the shell; the member initialiser m_Queue( nCapacity ) becomes the first statement (ghost queue: capacity = requested size rounded up to a power of two, the documented contract of the dynamic-buffer Vyukov queue)'
+stage.append(dict(kind='fragment', path=VP, name='vqp_ctor', anchor=r'(?<!_)vyukov_queue_pool\( size_t \w+ = 0 \)', rewrites=TMPS + [
+    dict(re=r'(?<!_)vyukov_queue_pool\( size_t (\w+) = 0 \)\s*: m_Queue\( \1 \)\s*\{', to=r'void vx_ctor( size_t \1 ) { m_Queue.vx_construct( \1 );', count=1, why=CTOR_WHY)]))
+stage.append(dict(kind='fragment', path=VP, name='bounded_ctor', anchor=r'bounded_vyukov_queue_pool\( size_t \w+ = 0 \)', rewrites=TMPS + [
+    dict(re=r'bounded_vyukov_queue_pool\( size_t (\w+) = 0 \)\s*: m_Queue\( \1 \)\s*\{', to=r'void vx_ctor( size_t \1 ) { m_Queue.vx_construct( \1 );', count=1, why=CTOR_WHY)]))
 stage.append(frag('bounded_from_pool', r'bool from_pool\( value_type \* \w+ \) const', 1))
 stage.append(dict(kind='fragment', path='cds/memory/pool_allocator.h', name='pa_allocate', anchor=r'pointer allocate\( size_type \w+, void const \* /\*hint\*/ = 0\)', rewrites=[
     dict(re=r'static_assert\( sizeof\(value_type\) <= sizeof\(typename accessor_type::value_type\), "Incompatible type" \);', to='', count=1, why='compile-time check only'),
@@ -55,12 +61,12 @@ UNIT = dict(
     groups=[
         G('vqp_allocate', 'h_vqp_allocate', ['vyukov_queue_pool::allocate'], [r'C24\.allocate']),
         G('vqp_deallocate', 'h_vqp_deallocate', ['vyukov_queue_pool::deallocate', 'vyukov_queue_pool::from_pool'], [r'C24\.deallocate']),
-        G('vqp_preallocate', 'h_vqp_preallocate', ['vyukov_queue_pool::preallocate_pool'], [r'C24\.preallocate']),
+        G('vqp_preallocate', 'h_vqp_preallocate', ['vyukov_queue_pool::vyukov_queue_pool(size_t)', 'vyukov_queue_pool::preallocate_pool'], [r'C24\.preallocate']),
         G('lazy_allocate', 'h_lazy_allocate', ['lazy_vyukov_queue_pool::allocate'], [r'C24\.allocate']),
         G('lazy_deallocate', 'h_lazy_deallocate', ['lazy_vyukov_queue_pool::deallocate'], [r'C24\.deallocate']),
         G('bounded_allocate', 'h_bounded_allocate', ['bounded_vyukov_queue_pool::allocate'], [r'C24\.allocate', r'C24\.bounded']),
         G('bounded_deallocate', 'h_bounded_deallocate', ['bounded_vyukov_queue_pool::deallocate'], [r'C24\.deallocate']),
-        G('bounded_preallocate', 'h_bounded_preallocate', ['bounded_vyukov_queue_pool::preallocate_pool', 'bounded_vyukov_queue_pool::from_pool'], [r'C24\.preallocate']),
+        G('bounded_preallocate', 'h_bounded_preallocate', ['bounded_vyukov_queue_pool::bounded_vyukov_queue_pool(size_t)', 'bounded_vyukov_queue_pool::preallocate_pool', 'bounded_vyukov_queue_pool::from_pool'], [r'C24\.preallocate']),
         G('pool_allocator', 'h_pool_allocator', ['pool_allocator::allocate', 'pool_allocator::deallocate'], [r'C24\.pool_allocator']),
     ],
 )
